@@ -152,6 +152,11 @@ def plan(seed, subbatch):
         fired["hexital_timeframe_fill"] += 1
     # (no lifespan here: a member purged or recalculated by an action restarts over the retained window only,
     # which legitimately differs from its never-purged solo twin)
+    if sub_rng(seed, "member-life").random() < 0.1:
+        # one member was built with a lifespan of its own; inside the Hexital the manager's configuration wins
+        # (here: none), for this member and - above all - for the others
+        members[sub_rng(seed, "member-life-k").randint(0, len(members) - 1)]["common"]["lifespan_s"] = \
+            base_s * sub_rng(seed, "member-life-n").randint(2, 12)
     if sub_rng(seed, "add-later").random() < 0.15:
         hexcfg["add_later"] = True     # the Hexital (and each solo twin) is built empty, members arrive through add_indicator
     fired["relation_" + relation] += 1
